@@ -733,3 +733,56 @@ func c17TokenizerVerbatim(c *Ctx) {
 		c.Check(rule, fnName(fn)+"|line-bytes-untouched", len(bad) == 0, fn.Pos(), fmt.Sprintf("rewriting calls on the line: %v", bad))
 	}
 }
+
+// lineVerbatim implements <prop>.line-verbatim for the readers of data files: a line read from the scanner reaches the
+// codec with at most its LEADING blanks removed (what the compiler has always done). Trailing white space can be part
+// of the last field (Bquote leaves blanks alone, a location id may be a TAB): trimming both ends on one path only
+// (seed c07r4i: a single-worker fast path; seed c09r4h: the preprocessor) makes the result depend on the worker
+// count, or makes the preprocessed file compile to something else.
+func lineVerbatim(c *Ctx, rule, pkg string, names ...string) {
+	c.Rule(rule, "A8 in the named functions and their function literals: a value obtained from (*bufio.Scanner).Bytes/Text is passed to no bytes/strings function that rewrites or re-cuts it by content (TrimSpace, TrimRight, Trim, TrimSuffix, ToLower, Replace…, Fields, Map), except bytes.TrimLeft")
+	var walk func(fn *ssa.Function, bad *[]string, seen *int)
+	walk = func(fn *ssa.Function, bad *[]string, seen *int) {
+		c.Examined(fn)
+		for _, ci := range callInstrs(fn) {
+			f := calleeOf(ci.Common())
+			if f == nil || f.Pkg() == nil {
+				continue
+			}
+			if f.Pkg().Path() == "bufio" && (f.Name() == "Bytes" || f.Name() == "Text") {
+				*seen++
+			}
+			if f.Pkg().Path() != "bytes" && f.Pkg().Path() != "strings" {
+				continue
+			}
+			nm := f.Name()
+			rewriting := (strings.HasPrefix(nm, "Trim") && nm != "TrimLeft") || strings.HasPrefix(nm, "To") || strings.HasPrefix(nm, "Replace") || nm == "Map" || strings.HasPrefix(nm, "Fields") || nm == "Title"
+			if !rewriting {
+				continue
+			}
+			fromScanner := false
+			for _, a := range ci.Common().Args {
+				for v := range backSlice(a, nil) {
+					if call, ok := v.(*ssa.Call); ok {
+						if g := calleeOf(call.Common()); g != nil && g.Pkg() != nil && g.Pkg().Path() == "bufio" && (g.Name() == "Bytes" || g.Name() == "Text") {
+							fromScanner = true
+						}
+					}
+				}
+			}
+			if fromScanner {
+				*bad = append(*bad, fmt.Sprintf("%s.%s at %s", f.Pkg().Path(), nm, c.relPos(ci.Pos())))
+			}
+		}
+		for _, cl := range fn.AnonFuncs {
+			walk(cl, bad, seen)
+		}
+	}
+	for _, name := range names {
+		fn := c.Func(pkg, name)
+		var bad []string
+		seen := 0
+		walk(fn, &bad, &seen)
+		c.Check(rule, fnName(fn)+"|scanned-line-not-rewritten", len(bad) == 0 && seen > 0, fn.Pos(), fmt.Sprintf("%d scanner reads; rewriting calls on a scanned line: %v", seen, bad))
+	}
+}
